@@ -233,6 +233,10 @@ def build_case(rng):
             exp.append(("procinj", "blobs", idx, [a, b]))
         elif what == "gargle":
             pairs = [(rng.randrange(1, 2**32), rng.randrange(1, 2**32)) for _ in range(rng.randrange(0, 6))]
+            if pairs and rng.random() < 0.4:
+                # a section that starts at offset 0, or a (degenerate) one that ends at 0: only the all-zero pair is the terminator
+                k = rng.randrange(len(pairs))
+                pairs[k] = rng.choice([(0, pairs[k][1]), (pairs[k][0], 0), (0, 0x1000)])
             val = b"".join(struct.pack("<II", s, e) for s, e in pairs) + bytes(8 * rng.choice([0, 1, 3]))
             recs.append(tlv.ptr(42, val))
             exp.append(("gargle", "settings", 42, [f"0x{s:x}-0x{e:x}" for s, e in pairs]))
